@@ -31,7 +31,7 @@ type Violation struct {
 	Known string          `json:"known,omitempty"` // id of the known finding it reproduces (replay tier only)
 }
 
-// Finding is an entry of /verif/known_findings.json.
+// Finding is an entry of /verif/known_findings/<id>.json.
 type Finding struct {
 	ID       string          `json:"id"`
 	Property string          `json:"property"`
@@ -115,7 +115,7 @@ func Open(id string) *Rec {
 			r.journal = f
 		}
 	}
-	if b, err := os.ReadFile(filepath.Join(r.root, "known_findings.json")); err == nil {
+	if b, err := os.ReadFile(filepath.Join(r.root, "known_findings", id+".json")); err == nil {
 		var all struct {
 			Findings []Finding `json:"findings"`
 		}
@@ -126,7 +126,7 @@ func Open(id string) *Rec {
 				}
 			}
 		} else {
-			fmt.Fprintf(os.Stderr, "evid: known_findings.json: %v\n", err)
+			fmt.Fprintf(os.Stderr, "evid: known_findings/<id>.json: %v\n", err)
 			os.Exit(2)
 		}
 	}
